@@ -23,7 +23,7 @@ def load_unit(name):
 class Gen:
     pass
 
-def generate(unit, repo='/repo', import_mode=False):
+def generate(unit, repo='/repo', import_mode=False, strip_body=()):
     """returns Gen with .text, .report (per function), .regions [(line_lo, line_hi, fn path, rel file, origin lines)], .items"""
     ov = open(unit['_overlay_path']).read()
     g = Gen(); g.report = []; g.items = []; g.problems = []
@@ -57,9 +57,18 @@ def generate(unit, repo='/repo', import_mode=False):
                 G = [[X.Tok(renames.get(str(t), str(t))) for t in run] for run in G]
                 E = [X.Tok(renames.get(str(t), str(t))) for t in E]
         toks, n_edits, edits = X.rebase(E, G, cur)
+        stripped = False
+        if path in strip_body:
+            # fallback when the rebased text no longer parses (the body was restructured): keep the contract on the signature,
+            # take the CURRENT body without any ghost text; the function is then checked against its contract with no proof hints
+            be, bc = X.body_open(E, 0), X.body_open(cur, 0)
+            if be is not None and bc is not None:
+                head, _, _ = X.rebase(E[:be], G[:be] + [[]], cur[:bc])
+                toks = head + G[be] + list(cur[bc:]); stripped = True
         text, origin = X.emit_with_lines(toks)
+        if stripped: text = '#[verifier::exec_allows_no_decreases_clause] ' + text
         g.report.append({'fn': path, 'file': rel, 'line': rts[0].line, 'real_tokens': len(cur), 'overlay_tokens': len(ots),
-                         'ghost_tokens': sum(len(r) for r in G), 'erasure_exact': exact, 'edits': edits, 'renames': renames,
+                         'ghost_tokens': sum(len(r) for r in G), 'erasure_exact': exact, 'edits': edits, 'renames': renames, 'body_ghost_stripped': stripped,
                          'snapshot_sha': hashlib.sha1(' '.join(X.strs(E)).encode()).hexdigest()[:12]})
         pieces.append((os_, oe, text, origin, path, rel))
     g.opaque = []
@@ -309,7 +318,7 @@ def assumption_scan(text):
     return sorted(set(out))
 
 def run_unit(unit, repo='/repo', canary=True, keep=False, rlimit=None, workdir=None):
-    t0 = time.time()
+    t0 = time.time(); strip_done = False
     res = {'unit': unit['name'], 'status': 'ok', 'problems': [], 'failures': [], 'functions': [], 'wall_s': 0}
     g = generate(unit, repo)
     res['report'] = g.report; res['items'] = g.items; res['opaque'] = g.opaque
@@ -353,6 +362,25 @@ def run_unit(unit, repo='/repo', canary=True, keep=False, rlimit=None, workdir=N
         for dgn in v['diags']:
             info = classify_diag(dgn, g, gen_lines)
             if info['kind'] != 'summary': res['failures'].append(info)
+        te_fns = set(f['fn'] for f in res['failures'] if f['kind'] == 'tool-error' and f.get('fn'))
+        changed_fns = set(r['fn'] for r in g.report if r['edits'])
+        retry = sorted(te_fns & changed_fns)
+        if not retry and any(f['kind'] == 'tool-error' for f in res['failures']) and len(changed_fns) == 1 and not strip_done:
+            retry = sorted(changed_fns)      # the front-end error was reported outside the region (e.g. at a call site of the changed function)
+        if retry and not strip_done:
+            g2 = generate(unit, repo, strip_body=set(retry))
+            open(path, 'w').write(g2.text)
+            v2 = run_verus(path, rlimit=rlimit or unit.get('rlimit'))
+            f2 = [classify_diag(dgn, g2, g2.text.split('\n')) for dgn in v2['diags']]
+            f2 = [x for x in f2 if x['kind'] != 'summary']
+            if not any(x['kind'] == 'tool-error' for x in f2):
+                g, v, gen_lines = g2, v2, g2.text.split('\n')
+                vj = v.get('json', {}); vr = vj.get('verification-results', {})
+                res['verified'] = vr.get('verified'); res['errors'] = vr.get('errors'); res['verus_success'] = vr.get('success')
+                res['report'] = g.report
+                for x in f2:
+                    if x.get('fn') in retry: x['proof_not_transferred'] = True
+                res['failures'] = f2; res['body_ghost_stripped'] = retry
         if res['failures']:
             kinds = set(f['kind'] for f in res['failures'])
             if 'definite' in kinds: res['status'] = 'failed'
